@@ -109,7 +109,7 @@ Lemma k_open_tab s p r w fl s' res :
   | Err _ => k_tab s' = k_tab s
   end.
 Proof.
-  unfold k_open. destruct (k_resolve (k_fs s) p fl) as [f' [k|e]].
+  unfold k_open. destruct (k_resolve (k_fs s) p w fl) as [f' [k|e]].
   - cbn [new_ofd]. intros Ha. destruct res as [c|e].
     + apply alloc_fd_ok in Ha. cbn in Ha. destruct Ha as [-> [-> [Hi [-> _]]]]. auto.
     + apply alloc_fd_err in Ha. cbn in Ha. destruct Ha as [-> [[-> _] _]]. auto.
@@ -235,6 +235,7 @@ Proof.
       exists (Some (mkEnt id false)). split; [rewrite Et1, Heq; apply upd_tset|].
       intros e E. injection E as <-. reflexivity.
     + unfold k_dup2, t_dup2. rewrite Et1, lookup_tset, N.eqb_refl. rewrite El1.
+      destruct (N.eqb_spec f (r_fd r)) as [|_]; [congruence|].
       destruct (in_limit (k_lim s) (r_fd r)) eqn:Ei; intros E; injection E as <- <-.
       * assert (sorted (tset (tset (k_tab s) f (mkEnt id false)) (r_fd r) (mkEnt id false))) as Hs2
           by (apply sorted_tset, sorted_tset; assumption).
@@ -259,6 +260,7 @@ Proof.
       exists (Some e). split; [rewrite Et1, <- Hm, Heq; apply upd_same|].
       intros e' E. injection E as <-. assumption.
     + unfold k_dup2, t_dup2. rewrite Et1, Hm, El1.
+      destruct (N.eqb_spec m (r_fd r)) as [|_]; [congruence|].
       destruct (in_limit (k_lim s) (r_fd r)) eqn:Ei; intros E; injection E as <- <-.
       * split; [|split; [exact El1|]].
         -- eapply wf_intro; [reflexivity|exact El1|cbn..];
